@@ -40,12 +40,27 @@ class C01(PropCheck):
                 continue
             sec2.add(line, 'ok', meta=meta, nontrivial=len(meta['pages']) >= 2, tags=tags)
 
+        sec3 = run.section(
+            'families',
+            'deterministic families (harness/families.py): footnotes in multi-column containers, floats with '
+            'definite heights at page bottoms, table rows with colspan/rowspan split across pages, footer-only '
+            'tables, column spans - every document checked by the Lean conservation checker; documents already '
+            'failing on the pinned tree are listed by id in corpus/C01/family_known.json; non-trivial = >= 2 pages')
+        self._family_known, cases = wide_trace.family_cases('C01')
+        for kind, line, meta in cases:
+            if kind == 'conserve':
+                sec3.add(line, 'ok', meta=meta, nontrivial=len(meta['pages']) >= 2, tags=[meta['doc_id'].split('-')[0]])
+
     def classify(self, d):
         if d['section'] == 'wide-traces':
             return wide_trace.explain(d['meta'], d['model'])
+        if d['section'] == 'families' and d['meta']['doc_id'] in self._family_known.get('conserve', ()):
+            return 'family-documents-known'
         return None
 
     def judge(self, d):
+        if d['section'] == 'families':
+            return f"{d['meta']['doc_id']}: " + (wide_trace.conserve_violation(d['meta'], d['model']) or d['model'])
         if d['section'] == 'wide-traces':
             return wide_trace.conserve_violation(d['meta'], d['model'])
         doc = pm_corr.doc_from_json(d['meta']['doc'])
